@@ -69,6 +69,15 @@ def _wrap_scan():
         except Exception as e:  # noqa: BLE001
             HUB.scan_events.append(ScanEvent(a, "error", type(e).__name__, str(e)))
             monitors_trace.judge_entry_point(a, "error", type(e).__name__)
+            owner = getattr(HUB, "scan_crash_owner", None)
+            try:
+                valid = owner and not monitors_trace.entry_point_invalid_reasons(a) and os.path.isdir(str(a["root_path"])) and os.path.isdir(str(a["module_path"]))
+            except Exception:  # noqa: BLE001
+                valid = False
+            if valid and not getattr(HUB, "scan_crash_expected", False):
+                # a well-formed request on a legal tree yields an architecture; raising is a failed scan, recorded before
+                # the exception travels on (the driving shard may die of it and is then reported as crashed as well)
+                HUB.violation(owner, f"scan-raises-{type(e).__name__}", f"get_evaluable_architecture raised {type(e).__name__}: {e} on a well-formed request", {"args": _plain_args(a)})
             raise
         monitors_trace.judge_entry_point(a, "ok", None)
         se = ScanEvent(a, "ok", evaluable=ev)
@@ -389,7 +398,14 @@ def _judge_parse(path, res, exc) -> None:
     got_rel = {(a, b) for a, bs in res.dependencies.items() for b in bs}
     if got_comps != set(comps) or got_rel != set(rel):
         lost, extra = sorted(set(rel) - got_rel), sorted(got_rel - set(rel))
-        if any("." in c for c in comps) and (set(comps) - got_comps or lost):
+        import re as _re
+
+        odd = sorted(c for c in comps if c.replace(".", "a").isidentifier() and not _re.fullmatch(r"[\w.]+", c))
+        if odd:
+            # the diagram names a component whose (legal) identifier contains a character that is no regex word
+            # character (combining marks, U+00B7, ...): one mechanism, whatever else the diagram contains
+            key = "nonword-identifier-component"
+        elif any("." in c for c in comps) and (set(comps) - got_comps or lost):
             key = "dotted-component-names"
         elif lost and not extra and got_comps == set(comps):
             key = "arrows-lost"
